@@ -124,6 +124,8 @@ fn variants(stmt: &str) -> Vec<(String, String)> {
         if is_punct(&toks[i]) || is_punct(&toks[i + 1]) {
             out.push(("separator-none".into(), format!("{}{}", left, right)));
         }
+        out.push(("comment-empty".into(), format!("{} --\n{}", left, right)));
+        out.push(("comment-empty-crlf".into(), format!("{} --\r\n{}", left, right)));
         let after = if toks[i] == "-" { "comment-after-minus" } else { "comment" };
         out.push((after.into(), format!("{} -- c\n{}", left, right)));
         out.push((format!("{}-adjacent", after), format!("{}-- SELECT 'x' ; (\n{}", if is_punct(&toks[i]) || toks[i].ends_with('\'') { left.clone() } else { format!("{} ", left) }, right)));
